@@ -12,6 +12,7 @@ package main
 //	split <delim> <s> <n>                    stringSplitter.Splitter: n calls of Next with Done after each
 //	acc <opt> <rev> <ops>                    AccumulatingGroup (see c07acc.go)
 //	sorted counter|subkey|table ...          counted / sorted accessors (see c07sorted.go)
+//	gk <perm> <elements> / parts <key>       group keys at every arity through csv.WriteAccumulator (see c07gk.go)
 //
 // <hist> is a hex list of raw sample strings.  Everything that comes out of a Go map is sorted.
 // Every case is executed several times so that a dependence on Go's randomised map iteration
@@ -151,6 +152,8 @@ func c07RunOnce(f []string) string {
 		return c07AccRunOnce(f)
 	case "sorted":
 		return c07SortedRunOnce(f)
+	case "gk", "parts":
+		return c07GkRunOnce(f)
 	case "split":
 		n, _ := strconv.Atoi(f[3])
 		sp := stringSplitter.Splitter{S: string(UnHex(f[2])), Delim: string(UnHex(f[1]))}
@@ -212,7 +215,7 @@ func c07Run(f []string) (res string) {
 	if len(f) > 1 && f[1] == "table" {
 		reps = 5 // Go randomises map iteration per range statement
 	}
-	if f[0] == "acc" || f[0] == "sorted" {
+	if f[0] == "acc" || f[0] == "sorted" || f[0] == "gk" {
 		reps = 2 // the accessor ranges over a map before it sorts
 	}
 	for i := 0; i < reps; i++ {
@@ -424,6 +427,7 @@ func c07Gen(r *Rand, tier string) []string {
 	var out []string
 	out = append(out, c07AccGen(r, tier)...)
 	out = append(out, c07SortedGen(r, tier)...)
+	out = append(out, c07GkGen(r, tier)...)
 	out = append(out, c07NumFGen(r, tier)...)
 	for i := 0; i < n; i++ {
 		out = append(out, "agg counter "+HexListS(c07Hist(r, "\x00", 1)))
@@ -498,6 +502,10 @@ func c07Stats(cases []string) map[string]int {
 			if f[1] == "counter" && strings.HasPrefix(f[3], "-") {
 				st["sorted.negativeCount"]++
 			}
+			continue
+		}
+		if f[0] == "gk" || f[0] == "parts" {
+			c07GkStats(f, st)
 			continue
 		}
 		if f[0] == "split" {
